@@ -47,8 +47,8 @@ LEVEL_NOTE = ('Trusted: Coq kernel, gen_tables.py, extraction + OCaml driver, th
               'non-ASCII letters in names, channel keys and hostmasks are probed directly (lower() is idempotent on every code point, non-ASCII channel '
               'keys round-trip) but not differentially modelled; (3) the flush that open() performs after a successful load, the later flush that makes '
               'an aborted load permanent, reload() on a live instance (same open() on cleared dictionaries) and utils.file.AtomicFile (C17) are outside '
-              'the model; (4) nextId after a reload is the largest stored id, smaller than before if the newest account was deleted (ids can be reused; '
-              'not account data, compared model-vs-code only); (5) auth (logins), IrcChannel.silences/exceptions/expiredBans are not persisted by design '
+              'the model; (4) nextId: finding C16.k (not saved; falls back to the largest stored id); that nextId >= every stored id in every reachable state is '
+              'taken from newUser/setUser, not proved; (5) auth (logins), IrcChannel.silences/exceptions/expiredBans are not persisted by design '
               'and outside the property text; (6) the conf sweep does not follow calls into utils/ircutils/log; (7) int()/float()/safeEval() are modelled '
               'on the subsets the writers produce (no exponents, underscores, non-ASCII digits); ignore expiries >= 0; (8) the mutators other than '
               'addNick/removeNick (addCapability, addHostmask, setUser refusal paths) are exercised by the generator but not modelled statement by statement.')
@@ -294,11 +294,13 @@ def users_case(ircdb, ops):
     finally:
         ircdb.users = saved
     d.flush()
+    _state['nextid'] = d.nextId
     return dump_users(d), read_text(d.filename)
 
 
-def users_oracle(ircdb, before, text):
-    """the property text: reloading the flushed file gives the same accounts, loading does not stop"""
+def users_oracle(ircdb, before, text, nextid=None):
+    """the property text: reloading the flushed file gives the same accounts, loading does not stop;
+    nextId is part of the saved state (an id must never be handed out twice)"""
     dump, nxt, exc, after = load_users(ircdb, text)
     if exc is not None:
         lost = len(before) - len(dump)
@@ -310,6 +312,8 @@ def users_oracle(ircdb, before, text):
                 y = [z for z in b if z[0] == x[0]]
                 return 'account %r reloaded as %r' % (x, y[0] if y else 'nothing (lost)'), dump
         return 'accounts added by reload: %r' % [z for z in b if z not in a], dump
+    if nextid is not None and nxt != nextid:
+        return 'nextId %d reloaded as %d: the next account would get the id of a deleted one' % (nextid, nxt), dump
     return None, dump
 
 
@@ -321,6 +325,7 @@ def _final(inp):
         apply_cfg(cfg_of(inp, 'save'))
         if inp.get('db') == 'users':
             _state['final'] = users_case(ircdb, inp['ops'])[0]
+            _state['final_nextid'] = _state['nextid']
         elif inp.get('db') == 'channels':
             _state['final'] = chans_case(ircdb, inp['ops'])[0]
         elif inp.get('db') == 'ignores':
@@ -358,6 +363,15 @@ def ws_mangled(inp):
 def name_hostmask(inp):
     import supybot.ircutils as ircutils
     return inp.get('db') == 'users' and any(ircutils.isUserHostmask(u[1]) for u in _final(inp))
+
+
+def nextid_lower(inp):
+    """class of finding C16.k: the history deleted the account with the highest id before the flush,
+    so nextId is above every stored id"""
+    if inp.get('db') != 'users':
+        return False
+    final = _final(inp)
+    return _state.get('final_nextid', 0) > max([u[0] for u in final] or [0])
 
 
 def hashed_nopw(inp):
@@ -406,7 +420,7 @@ def _cls(f):
 
 CLASSES = {k: _cls(f) for k, f in {
     'field_newline': has_newline, 'name_blank': blank_name, 'field_ws_mangled': ws_mangled,
-    'hashed_without_password': hashed_nopw, 'name_hostmask_shaped': name_hostmask,
+    'hashed_without_password': hashed_nopw, 'name_hostmask_shaped': name_hostmask, 'nextid_above_stored_ids': nextid_lower,
     'chan_default_anticap_removed': chan_default_removed, 'chan_unsafe_token': chan_unsafe,
     'net_unsafe_token': net_unsafe, 'ignore_unsafe_hostmask': ignore_unsafe}.items()}
 
@@ -746,9 +760,11 @@ def check_users_state(ctx, ircdb, ops, kind, batch, cfg=None):
     inp = mk_inp('users', ops, cfg)
     apply_cfg(cfg_of(inp, 'save'))
     before, text = users_case(ircdb, ops)
+    nextid = _state['nextid']
+    _state.setdefault('nextids', {})[id(before)] = nextid
     ctx.case(kind, inp, nontrivial=bool(before))
     apply_cfg(cfg_of(inp, 'load'))
-    detail, after = users_oracle(ircdb, before, text)
+    detail, after = users_oracle(ircdb, before, text, nextid)
     apply_cfg()
     batch.append(('users', inp, before, text, detail))
     return detail
@@ -773,7 +789,8 @@ def flush_batch(ctx, ircdb, batch):
     rt = [rtext.get(n, b[3]) for n, b in enumerate(full) if rtext.get(n, '') is not None]
     for (db, inp, before, text, detail), mtext in zip(batch, rt):
         if db == 'users':
-            cases += [[0, [wire_user(u) for u in before]], [1, [[], mtext]], [2, [wire_user(u) for u in before]]]
+            cases += [[18, [_state.get('nextids', {}).get(id(before), 0), [wire_user(u) for u in before]]], [1, [[], mtext]],
+                      [2, [wire_user(u) for u in before]]]
         elif db == 'channels':
             cases += [[3, [[k, c] for k, c in before]], [14, [bool(cfg_of(inp, 'load').get('strict')), [], mtext]],
                       [5, [[k, c] for k, c in before]]]
@@ -797,6 +814,9 @@ def flush_batch(ctx, ircdb, batch):
             mod = canon_load(*dec_load_users(r))
             if impl != mod:
                 ctx.disagree(inp, mod, impl, 'UsersDictionary.open of the flushed text')
+            if dom == 1 and _state.get('nextids', {}).get(id(before), 0) != max([u[0] for u in before] or [0]):
+                dom = 0
+                ctx.dist['users-nextid-above-stored-ids'] += 1
             if dom == 1 and detail is not None:
                 # inside the proved domain the property must hold: never attribute this to a known class
                 ctx.fail(dict(inp, in_domain=True), 'inside users_dom: ' + detail)
@@ -993,6 +1013,8 @@ CORPUS = [
     {'db': 'ignores', 'ops': [['add', 'a!b@c', 0], ['add', 'q!w@e', NOW + 50.5], ['add', 'A!B@C', NOW - 10]]},
     {'db': 'ignores', 'ops': [['add', '#x!y@z', 0]]},
     {'db': 'users', 'ops': [['reg', 'a', 'pw', ''], ['reg', 'b', 'pw', ''], ['nick', 0, 'libera', 'alice'], ['nick', 1, 'libera', 'alice']]},
+    {'db': 'users', 'ops': [['reg', 'alice', 'pw', ''], ['reg', 'bob', 'pw', ''], ['reg', 'victim', 'pw', ''], ['del', 2]]},
+    {'db': 'users', 'ops': [['reg', 'only', 'pw', ''], ['del', 0]]},
     {'db': 'users', 'ops': [['reg', 'plain', 'pw', ''], ['reg', 'later', 'pw', ''], ['nick', 0, 'libera', 'x\n\tcapability\towner']]},
     {'db': 'users', 'ops': [['reg', 'plain', 'pw', ''], ['nick', 0, 'libera', 'ok'], ['nick', 0, 'libera', 'a\tb'], ['nick', 0, 'libera', 'alice\n'],
                             ['nick', 0, 'libera', ''], ['nick', 0, 'libera', 'a\xa0b'], ['nick', 0, 'n 3', 'x'], ['nick', 0, '', 'x'], ['nick', 0, 'libera', 'fine']]},
